@@ -85,6 +85,8 @@ def data_event(inst, rng, prop="C01"):
     las = lasio.LASFile()
     start = rng.choice([0.0, 100.0, 2500.5, -50.0, 1e6])
     step = rng.choice([0.5, 0.1524, 1.0, -0.25, 10.0])
+    if inst.get("hyphens"):
+        start, step = -50.0, -0.25            # a negative index (and, below, a negative NULL): a hyphen on every physical line
     idx = np.array([start + i * step for i in range(R)])
     cols = [idx]
     for j in range(1, C):
@@ -99,6 +101,8 @@ def data_event(inst, rng, prop="C01"):
     for n, col in zip(names, cols):
         las.append_curve(n, col, unit="m" if n == "DEPT" else "")
     null = rng.choice([-999.25, -9999, 1e30, 0, -9999.25, -99999.25, 2147483647, -999.2575, 1234567.5])      # (also > 6 significant digits)
+    if inst.get("hyphens"):
+        null = -999.25
     las.well["NULL"].value = null
     # a finite sample equal to NULL would legitimately come back as NaN: keep the data clear of the marker
     fmts = dict(pres.get("column_fmt", {}))
